@@ -88,6 +88,14 @@ def handle : List String → String
     let (f, lw) := fracVolumesVLW (fl ρi) (fl ρw) (fl ρ) (fl vlw)
     s!"{showF f} {showF lw}"
   | "fraclw" :: ρi :: ρw :: ρ :: lw :: _ => showF (fracVolumeLW (fl ρi) (fl ρw) (fl ρ) (fl lw))
+  | "cfvlw" :: ρi :: ρw :: ρ :: vlw :: _ =>
+    match computeFracVLW (fl ρi) (fl ρw) (fl ρ) (fl vlw) with
+    | some (f, lw) => s!"{showF f} {showF lw}"
+    | none => "ERR:AssertionError"
+  | "cflw" :: ρi :: ρw :: ρ :: lw :: _ =>
+    match computeFracLW (fl ρi) (fl ρw) (fl ρ) (fl lw) with
+    | some (f, lw) => s!"{showF f} {showF lw}"
+    | none => "ERR:AssertionError"
   | _ => "ERR unknown-op"
 
 end Smrt.Driver.C16
